@@ -21,7 +21,7 @@ d=/verif/seeded/$p-$SUFFIX; mkdir -p $d
 cp /tmp/confirm_$p.diff $d/patch.diff
 cp meta.json $d/
 [ -f tests/demo_seeded.rs ] && cp tests/demo_seeded.rs $d/
-for x in demo_seeded demo_runner demo_harness demo_crate demo; do [ -d $x ] && { mkdir -p $d/$x; rsync -a --exclude target --exclude Cargo.lock $x/ $d/$x/; }; done
+for x in demo_seeded demo_runner demo_harness demo_crate demo demo_pkg runner; do [ -d $x ] && { mkdir -p $d/$x; rsync -a --exclude target --exclude Cargo.lock $x/ $d/$x/; }; done
 for x in examples/demo_seeded.rs; do [ -f $x ] && cp $x $d/; done
 cd /verif
 git -C /repo worktree remove --force $WT
